@@ -140,16 +140,18 @@ pub fn d_pv(x: &S) -> BddPartialValuation {
         S::A(a) if a.starts_with('p') => &a[1..],
         _ => bad("partial valuation", x),
     };
-    let mut lits = Vec::new();
+    // cell by cell, so that unset cells also pad the backing vector ("p--" is an empty valuation of length 2):
+    // the written length of the string is the length of the value the library holds
+    let mut pv = BddPartialValuation::empty();
     for (i, c) in a.chars().enumerate() {
         match c {
-            '0' => lits.push((BddVariable::from_index(i), false)),
-            '1' => lits.push((BddVariable::from_index(i), true)),
-            '-' => {}
+            '0' => pv.set_value(BddVariable::from_index(i), false),
+            '1' => pv.set_value(BddVariable::from_index(i), true),
+            '-' => pv.unset_value(BddVariable::from_index(i)),
             _ => bad("pv char", x),
         }
     }
-    BddPartialValuation::from_values(&lits)
+    pv
 }
 pub fn d_pvs(x: &S) -> Vec<BddPartialValuation> {
     d_items(x, "L").iter().map(d_pv).collect()
